@@ -7,11 +7,19 @@ use mcx::{guard, CheckDef, Ctx, Sub, Tier};
 
 #[path = "codec/c10.rs"]
 mod c10;
+#[path = "codec/views.rs"]
+mod views;
 
 fn main() {
     mcx::engine::main(|prop, tier| match prop {
         "C09" => Some(c09(tier)),
-        "C10" => Some(c10::def(tier)),
+        "C10" => {
+            // reader-operation histories + whole-section parse views
+            let mut d = c10::def(tier);
+            d.subs.extend(views::subs(tier));
+            d.required_outcomes.extend(views::required_outcomes());
+            Some(d)
+        }
         // the same exploration at a size an interpreter (Miri) can finish
         "C10M" => Some(c10::def_small()),
         _ => None,
